@@ -2655,7 +2655,9 @@ impl<T: Storage> Raft<T> {
     /// Recovers the state machine from a snapshot. It restores the log and the
     /// configuration of state machine.
     pub fn restore(&mut self, snap: Snapshot) -> bool {
-        if snap.get_metadata().index < self.raft_log.committed {
+        // Not behind what is committed, nor behind what the application has already applied
+        // (after a restart the latter can be ahead of the former for a while).
+        if snap.get_metadata().index < cmp::max(self.raft_log.committed, self.raft_log.applied) {
             return false;
         }
         if self.state != StateRole::Follower {
